@@ -333,7 +333,7 @@ func c12r4(w *World, rr *RuleRun) {
 	a := w.bep44()
 	argsTarget := w.P.Field("krpc", "MsgArgs", "Target")
 	// get: the served item
-	gets := w.CallsIn(h.fn, a.wGet, true)
+	gets := w.CallsInRegion(h.fn, a.wGet)
 	if len(gets) != 1 {
 		rr.Oblige(shortFuncName(h.fn), "get handler reads the store once", w.P.Pos(h.fn.Pos()), false, fmt.Sprintf("%d Wrapper.Get calls", len(gets)))
 	}
@@ -346,7 +346,7 @@ func c12r4(w *World, rr *RuleRun) {
 			rf := w.P.Field("krpc", "Bep44Return", fld.ret)
 			itf := w.P.Field("bep44", "Item", fld.item)
 			n := 0
-			for _, st := range w.FieldWrites([]*ssa.Function{h.fn}, rf) {
+			for _, st := range w.FieldWrites(w.RegionOf(h.fn), rf) {
 				s, isStore := st.(*ssa.Store)
 				if !isStore {
 					continue
@@ -369,7 +369,7 @@ func c12r4(w *World, rr *RuleRun) {
 	}
 	// put: item literal built name-for-name from the arguments
 	itemT := w.P.NamedType("bep44", "Item")
-	lit := w.literalStores(h.fn, itemT)
+	lit := w.literalStoresRegion(h.fn, itemT)
 	for _, f := range []string{"V", "K", "Salt", "Sig", "Cas", "Seq"} {
 		v := lit[f]
 		if v == nil {
@@ -386,10 +386,10 @@ func c12r4(w *World, rr *RuleRun) {
 		rr.Oblige(shortFuncName(h.fn), "put item field "+f+" set from the arguments", w.P.Pos(h.fn.Pos()), ok && termEq(base, h.m), f+" ← "+t.String())
 	}
 	// the store's KRPC error is relayed
-	for _, p := range w.CallsIn(h.fn, a.wPut, true) {
+	for _, p := range w.CallsInRegion(h.fn, a.wPut) {
 		pv := w.TS.Of(p.(ssa.Value))
 		n := 0
-		for _, se := range w.CallsIn(h.fn, h.sendError, true) {
+		for _, se := range w.CallsInRegion(h.fn, h.sendError) {
 			e := w.TS.Of(callInstrCommon(se).Args[3])
 			if e.Contains(pv) {
 				n++
